@@ -244,6 +244,10 @@ func (r *Run) ParkHook(site, who string, probe func() bool) {
 	r.ParkWith(&Parked{Site: site, Who: who, Probe: probe})
 }
 
+// Settle runs everything to quiescence inside the current step (after an
+// injected fault whose effects spread on goroutines of a dependency).
+func (r *Run) Settle() { synctest.Wait() }
+
 // Quiesce runs everything to quiescence and starts a new step.
 func (r *Run) Quiesce() {
 	synctest.Wait()
